@@ -733,7 +733,7 @@ func obsOps(r *core.Rand, id string) []string {
 }
 
 func (prop) Gen(r *core.Rand, tier string) []core.Case {
-	n, budget := 40, 170
+	n, budget := 40, 80
 	if tier == "thorough" {
 		n, budget = 500, 2500
 	}
